@@ -32,7 +32,7 @@ pub struct Disk {
     pub dirs: Vec<String>,
 }
 
-fn walk(base: &Path, dir: &Path, out: &mut Vec<(String, FileKind)>) {
+fn walk(base: &Path, dir: &Path, out: &mut Vec<(String, FileKind)>, follow_top: bool) {
     let rd = match std::fs::read_dir(dir) {
         Ok(r) => r,
         Err(_) => return,
@@ -46,11 +46,15 @@ fn walk(base: &Path, dir: &Path, out: &mut Vec<(String, FileKind)>) {
         };
         let rel = p.strip_prefix(base).unwrap().to_string_lossy().to_string();
         let ft = md.file_type();
-        if ft.is_symlink() {
+        if ft.is_symlink() && follow_top && dir == base && p.is_dir() {
+            // a top-level directory of the cache that lives elsewhere and is linked back
+            out.push((rel.clone(), FileKind::Dir));
+            walk(base, &p, out, false);
+        } else if ft.is_symlink() {
             out.push((rel, FileKind::Symlink));
         } else if ft.is_dir() {
             out.push((rel.clone(), FileKind::Dir));
-            walk(base, &p, out);
+            walk(base, &p, out, follow_top);
         } else if ft.is_file() {
             out.push((rel, FileKind::Regular));
         } else {
@@ -82,7 +86,7 @@ pub fn check_content_file(cache: &Path, rel: &str, kind: FileKind) -> ContentFil
 pub fn scan(cache: &Path) -> Disk {
     let mut d = Disk::default();
     let mut all = Vec::new();
-    walk(cache, cache, &mut all);
+    walk(cache, cache, &mut all, true);
     for (rel, kind) in all {
         if kind == FileKind::Dir {
             d.dirs.push(rel);
@@ -130,7 +134,7 @@ impl Disk {
 pub fn tree_digest(root: &Path) -> String {
     // order-independent summary of a directory tree (names, kinds, bytes) used for "nothing else changed"
     let mut all = Vec::new();
-    walk(root, root, &mut all);
+    walk(root, root, &mut all, false);
     let mut s = String::new();
     for (rel, kind) in all {
         s.push_str(&rel);
